@@ -144,10 +144,17 @@ pub fn run(ctx: &Ctx) -> CheckResult {
     let outs = par_run(ctx, &jobs, |_, (cfg, slen)| {
         let mut out = JobOut::default();
         let mut prefixes: Vec<Vec<u8>> = vec![];
-        for_each_seq(pre_vals.len(), None, dp, |s| {
+        let dpk = if cfg.kind == Kind::Mfi && ctx.tier_thorough { dp + 1 } else { dp };
+        for_each_seq(pre_vals.len(), None, dpk, |s| {
             prefixes.push(s.to_vec());
             true
         });
+        // MoneyFlowIndex: explicit bars with equal typical prices between different bars,
+        // prefix symbols additionally contain bars with 1e3 / 1e6 times larger flows
+        let mfi_base: Vec<Bar> = crate::alpha::b_mfi()[..4].to_vec();
+        let mut mfi_pre: Vec<Bar> = crate::alpha::b_mfi();
+        mfi_pre.push(Bar::hlcv(3e3, 1e3, 2e3, 1.0));
+        mfi_pre.push(Bar::hlcv(2e3, 2e3, 2e3, 1e3));
         let mut suffix: Vec<Op> = vec![];
         let mut full: Vec<Op> = vec![];
         let mut n = 0u64;
@@ -158,7 +165,11 @@ pub fn run(ctx: &Ctx) -> CheckResult {
                 return false;
             }
             suffix.clear();
-            suffix.extend(sq.iter().enumerate().map(|(i, &a)| to_op(cfg.kind, base[a as usize], i)));
+            if cfg.kind == Kind::Mfi {
+                suffix.extend(sq.iter().map(|&a| Op::B(mfi_base[a as usize])));
+            } else {
+                suffix.extend(sq.iter().enumerate().map(|(i, &a)| to_op(cfg.kind, base[a as usize], i)));
+            }
             let b = match last_of(cfg, &suffix) {
                 Some(b) => b,
                 None => {
@@ -170,11 +181,15 @@ pub fn run(ctx: &Ctx) -> CheckResult {
             for p in &prefixes {
                 // negative prices make no sense for bar kinds and ratio kinds: use magnitudes there
                 full.clear();
+                if cfg.kind == Kind::Mfi {
+                    full.extend(p.iter().map(|&a| Op::B(mfi_pre[a as usize])));
+                } else {
                 full.extend(p.iter().enumerate().map(|(i, &a)| {
                     let x = pre_vals[a as usize];
                     let x = if matches!(cfg.kind, Kind::Roc | Kind::Er) { x.abs() } else { x };
                     to_op(cfg.kind, x, i + 1)
                 }));
+                }
                 full.extend_from_slice(&suffix);
                 out.stats.states += 1;
                 out.stats.traces += 1;
